@@ -30,7 +30,7 @@ CHECKS = {
         "level": "exploration",
         "rule": "same generator as C01 weighted towards graphs and unsubscribe/reference-removal while parents load; oracle: reference client with reachability-based retention checks after every frame: no dangling non-soft reference, no event for a resource not held, change only on models, add/remove only on collections with index in bounds, successful subscribe/resource response leaves data. Non-trivial = a resource was handed to the client again after the client dropped it, or dropped while a request whose response later carried it was outstanding, or a reference-carrying event arrived after a drop; distinct by script hash",
         "assumptions": A_SIM + ["clients follow the protocol: they unsubscribe only what was confirmed to them"],
-        "parts": [sim(300, 5000)],
+        "parts": [sim(700, 6000)],
     },
     "C03": {
         "level": "exploration",
